@@ -721,6 +721,15 @@ def streams(ctx):
     out.append(Stream("corpus", reqs, kind="corpus",
                       note="one probe per known finding, then regression inputs (grouping boundaries, limits)"))
 
+    # 1b. characters that are spec syntax only to byte-level code (same low byte as a spec character)
+    import lexcommon
+    syn = "".join(c for c in ALPHABET if ord(c) < 0x80)
+    al = list(dict.fromkeys(a for t in list(_specs(2)) + [x for _, x, _ in PROBES] + [x for x, _ in REGRESSION] + ["<10d", "+#012,.3f", "*^20s", ">08.3e", "=+10_x", "10.4%"]
+                            for a in lexcommon.trunc_aliases(t, syn)))
+    out.append(Stream("truncation-aliases", [mkreq(a, [1234567, "abc", 1.5]) for a in al], kind="directed",
+                      note="specs with one syntax character replaced by a letter that has the same low byte (U+01xx / U+100xx): "
+                           "it is a fill character or an error, never the syntax character"))
+
     # 2. exhaustive small scope
     L = 3 if ctx.quick else 4
     fixed = INTS + STRS + BOOLS + FLOATS
